@@ -315,6 +315,17 @@ func (a *analysis) oracleC14() verdict {
 			}
 		}
 	}
+	for _, o := range a.hist() {
+		if o.Op.K != "barwaitget" || o.Skipped || o.Ret == 0 {
+			continue
+		}
+		var c, ab, run bool
+		if _, err := fmt.Sscanf(o.Res, "%t,%t,%t", &c, &ab, &run); err == nil {
+			if run || c == ab {
+				return violated("barwait-unsettled", "right after Bar.Wait returned on bar %d: IsRunning=%v Completed=%v Aborted=%v (cancel placed at %s)", o.Op.B, run, c, ab, place)
+			}
+		}
+	}
 	if sc.Notifier {
 		if len(rr.notif) != 1 {
 			return violated(fmt.Sprintf("notifier:%d", len(rr.notif)), "shutdown notifier delivered %d values (cancel placed at %s)", len(rr.notif), place)
@@ -334,7 +345,7 @@ func (a *analysis) mayHaveCompleted(bi int) bool {
 			continue
 		}
 		switch o.Op.K {
-		case "incr", "incrby", "increment", "ewmaincr", "ewmaincrby", "ewmaincrement", "setcur", "ewmasetcur", "proxyread":
+		case "incr", "incrby", "increment", "ewmaincr", "ewmaincrby", "ewmaincrement", "setcur", "ewmasetcur", "proxyread", "proxywrite":
 			if spec.Total > 0 {
 				return true
 			}
@@ -518,6 +529,13 @@ func (a *analysis) oracleC05() verdict {
 		return *v
 	}
 	sc := a.sc
+	if a.errCycle && sc.Notifier && a.rr.tWaitRet.Load() != 0 {
+		// render-error scenarios: only the clause about the notifier's list is judged
+		if v := a.notifierAfterError(a.faultSite()); v != nil {
+			return *v
+		}
+		return held(len(sc.Bars) > 1)
+	}
 	if sc.Delay || a.errCycle || sc.OutFailAt > 0 {
 		return inconclusive("scenario has a render delay or a render error: membership of unseen frames unknown")
 	}
